@@ -25,6 +25,8 @@ func main() {
 		cmdCheck(os.Args[2:])
 	case "ledger":
 		cmdLedger(os.Args[2:])
+	case "replay":
+		cmdReplay(os.Args[2:])
 	default:
 		fmt.Println("unknown command")
 		os.Exit(2)
